@@ -176,6 +176,48 @@ Definition read_g (s : gstate) (buffer : bytes) (a : rargs) : result nat * gstat
       end
   end.
 
+(* the two endings of a read, as pose_header.py has them: a memo hit hands out copy.deepcopy(cached header) with the body just
+   decoded; a miss stores copy.deepcopy(parsed header) in the memo and hands out the parsed objects *)
+Definition hit_g (s : gstate) (res : result pose) : result nat * gstate :=
+  match res, gmem s with
+  | Ok p, Some gc =>
+      match read_tree FUEL (gheap s) (gm_addr gc) with
+      | Some tm => let '(ap, h1) := alloc_tree (VNode [] [tm; body_tree (p_body p)]) (gheap s) in
+                   (Ok ap, {| gheap := h1; gmem := gmem s; ghanded := ghanded s ++ [ap] |})
+      | None => (Err Value, s)
+      end
+  | Ok p, None => (Err Value, s)
+  | Err e, _ => (Err e, s)
+  end.
+Definition miss_g (s : gstate) (h : header) (e : N) (slice : bytes) (res : result pose) : result nat * gstate :=
+  let '(am, h1) := alloc_tree (header_tree h) (gheap s) in
+  let gm := Some {| gm_start := 0; gm_end := e; gm_slice := slice; gm_addr := am |} in
+  match res with
+  | Ok p => let '(ap, h2) := alloc_tree (pose_tree p) h1 in
+            (Ok ap, {| gheap := h2; gmem := gm; ghanded := ghanded s ++ [ap] |})
+  | Err er => (Err er, {| gheap := h1; gmem := gm; ghanded := ghanded s |})
+  end.
+
+(* Pose.read on a seekable stream positioned at 0 (pose.py: a BytesIOReader when a window is asked for, else the whole stream is
+   read into bytes): PoseRead.read_stream with the objects made explicit *)
+Definition read_gs (s : gstate) (file : bytes) (a : rargs) : result nat * gstate :=
+  if negb (any_arg a) then read_g s file a
+  else
+    let mv := memo_view_g s in
+    let res := fst (fst (read_stream legacy mv file a)) in
+    match expect file (prefetch_len mv) {| buf := []; off := 0; skipped := 0; pulled := 0 |} with
+    | Err e => (Err e, s)
+    | Ok r1 =>
+        match check_cache mv (buf r1) with
+        | Some c => hit_g s res
+        | None =>
+            match run_stream file rd_header r1 with
+            | Err e => (Err e, s)
+            | Ok (h, r2) => miss_g s h (off r2) (py_slice 0 (off r2) (buf r2)) res
+            end
+        end
+    end.
+
 Inductive gop :=
 | GRead (buffer : bytes) (a : rargs)
 | GEdit (k : nat) (path : list nat) (g : W -> W)   (* in-place edit of an object reached from the k-th pose handed out *)
@@ -183,11 +225,13 @@ Inductive gop :=
 | GAssign (k : nat) (path : list nat) (i : nat) (w : W)
     (* attribute assignment of a NEWLY BUILT object without mutable parts of its own - `header.dimensions = PoseHeaderDimensions(..)`,
        `body.data.mask = m`, `component.points = [...]`: the i-th pointer field of the object at `path` is re-pointed to a new cell *)
-| GPop (k : nat) (path : list nat).                 (* `header.components.pop()`: the last pointer field of the object at `path` is dropped *)
+| GPop (k : nat) (path : list nat)                  (* `header.components.pop()`: the last pointer field of the object at `path` is dropped *)
+| GReadS (file : bytes) (a : rargs).                (* Pose.read of a seekable stream holding `file` *)
 
 Definition step_g (s : gstate) (o : gop) : gstate * option (result nat) :=
   match o with
   | GRead buffer a => let '(r, s') := read_g s buffer a in (s', Some r)
+  | GReadS file a => let '(r, s') := read_gs s file a in (s', Some r)
   | GEdit k path g =>
       match nth_error (ghanded s) k with
       | Some root => match addr_at (gheap s) root path with
